@@ -1817,6 +1817,7 @@ void IGXMLScanner::resolveSchemaGrammar(const XMLCh* const loc, const XMLCh* con
         parser.setDoNamespaces(true);
         parser.setUserEntityHandler(fEntityHandler);
         parser.setUserErrorReporter(fErrorReporter);
+        parser.setDisableDefaultEntityResolution(fDisableDefaultEntityResolution);
 
         //Normalize loc
         XMLBufBid nnSys(&fBufMgr);
@@ -2175,6 +2176,7 @@ Grammar* IGXMLScanner::loadXMLSchemaGrammar(const InputSource& src,
     parser.setDoNamespaces(true);
     parser.setUserEntityHandler(fEntityHandler);
     parser.setUserErrorReporter(fErrorReporter);
+    parser.setDisableDefaultEntityResolution(fDisableDefaultEntityResolution);
 
     // Should just issue warning if the schema is not found
     bool flag = src.getIssueFatalErrorIfNotFound();
